@@ -170,8 +170,148 @@ def run(cfg, outdir=None, with_series=False):
     return res, g
 
 
+def make_manager_permuted(c, order_seed):
+    """the same configuration through the public setters in another admissible order"""
+    import random as _r
+    from ghedesigner.manager import GHEManager
+    from ghedesigner.enums import BHPipeType
+    g = GHEManager()
+    gc = dict(c["geometric_constraints"])
+    dz = c["design"]
+    pp = dict(c["pipe"])
+    arr = pp.pop("arrangement")
+
+    def set_pipe():
+        g.set_pipe_type(arr)
+        if g.pipe_type == BHPipeType.SINGLEUTUBE:
+            g.set_single_u_tube_pipe(**pp)
+        elif g.pipe_type == BHPipeType.DOUBLEUTUBEPARALLEL:
+            g.set_double_u_tube_pipe_parallel(**pp)
+        elif g.pipe_type == BHPipeType.DOUBLEUTUBESERIES:
+            g.set_double_u_tube_pipe_series(**pp)
+        else:
+            g.set_coaxial_pipe(**pp)
+
+    def set_geom():
+        tmp = make_geom(g, gc)
+    steps = [lambda: g.set_fluid(**c["fluid"]), lambda: g.set_grout(**c["grout"]), lambda: g.set_soil(**c["soil"]), set_pipe,
+             lambda: g.set_borehole(height=c.get("_nominal_height", gc["max_height"]), buried_depth=c["borehole"]["buried_depth"], diameter=c["borehole"]["diameter"]),
+             lambda: g.set_ground_loads_from_hourly_list(c["loads"]["ground_loads"]),
+             lambda: g.set_simulation_parameters(num_months=c["simulation"]["num_months"], max_eft=dz["max_eft"], min_eft=dz["min_eft"],
+                                                 max_height=gc["max_height"], min_height=gc["min_height"], max_boreholes=dz.get("max_boreholes"),
+                                                 continue_if_design_unmet=dz.get("continue_if_design_unmet", False)),
+             set_geom]
+    _r.Random(order_seed).shuffle(steps)
+    for st in steps:
+        st()
+    g.set_design(flow_rate=dz["flow_rate"], flow_type_str=dz["flow_type"])
+    return g
+
+
+def make_geom(g, gc):
+    from ghedesigner.enums import DesignGeomType
+    g.set_design_geometry_type(gc["method"])
+    m = g.geom_type
+    if m == DesignGeomType.RECTANGLE:
+        g.set_geometry_constraints_rectangle(length=gc["length"], width=gc["width"], b_min=gc["b_min"], b_max=gc["b_max"])
+    elif m == DesignGeomType.NEARSQUARE:
+        g.set_geometry_constraints_near_square(b=gc["b"], length=gc["length"])
+    elif m == DesignGeomType.BIRECTANGLE:
+        g.set_geometry_constraints_bi_rectangle(length=gc["length"], width=gc["width"], b_min=gc["b_min"], b_max_x=gc["b_max_x"], b_max_y=gc["b_max_y"])
+    elif m == DesignGeomType.BIZONEDRECTANGLE:
+        g.set_geometry_constraints_bi_zoned_rectangle(length=gc["length"], width=gc["width"], b_min=gc["b_min"], b_max_x=gc["b_max_x"], b_max_y=gc["b_max_y"])
+    elif m == DesignGeomType.BIRECTANGLECONSTRAINED:
+        g.set_geometry_constraints_bi_rectangle_constrained(b_min=gc["b_min"], b_max_x=gc["b_max_x"], b_max_y=gc["b_max_y"],
+                                                            property_boundary=gc["property_boundary"], no_go_boundaries=gc["no_go_boundaries"])
+    else:
+        g.set_geometry_constraints_rowwise(perimeter_spacing_ratio=gc.get("perimeter_spacing_ratio"), max_spacing=gc["max_spacing"], min_spacing=gc["min_spacing"],
+                                           spacing_step=gc["spacing_step"], max_rotation=gc["max_rotation"], min_rotation=gc["min_rotation"],
+                                           rotate_step=gc["rotate_step"], property_boundary=gc["property_boundary"], no_go_boundaries=gc["no_go_boundaries"])
+
+
+def result_key(g, outdir=None):
+    """everything a user can observe of a design, for bit-for-bit comparison"""
+    s = summarise(g, with_series=True)
+    key = {"nbh": s["nbh"], "H": s["H"], "coords": s["coords"], "hp_eft": s["hp_eft"], "tracker": s["search_tracker"]}
+    if outdir:
+        g.prepare_results("verif", "note", "verif", "it")
+        g.write_output_files(Path(outdir))
+        files = {}
+        for fn in ("BoreFieldData.csv", "Loadings.csv", "Gfunction.csv", "TimeDependentValues.csv"):
+            files[fn] = (Path(outdir) / fn).read_text()
+        js = json.loads((Path(outdir) / "SimulationSummary.json").read_text())
+        js.pop("simulation_time_stamp", None)
+        js.pop("simulation_runtime", None)
+        files["SimulationSummary.json"] = json.dumps(js, sort_keys=True)
+        key["files"] = files
+    return key
+
+
+def run_history(c):
+    """metamorphic histories for C13: all must give the result of the canonical fresh run"""
+    import tempfile
+    cfg = materialise(c["cfg"])
+    other = materialise(c["other"]) if c.get("other") else None
+    tmp = tempfile.mkdtemp(prefix="verif_c13_")
+    out = {}
+    try:
+        g0 = make_manager(cfg)
+        g0.find_design()
+        base = result_key(g0, os.path.join(tmp, "base"))
+        out["base"] = {"nbh": base["nbh"], "H": base["H"]}
+        variants = {}
+        # 1. repeat the search on the same manager
+        g0.find_design()
+        variants["repeat_same_manager"] = result_key(g0, os.path.join(tmp, "v1"))
+        # 2. rebuild the manager
+        g1 = make_manager(cfg)
+        g1.find_design()
+        variants["rebuilt_manager"] = result_key(g1, os.path.join(tmp, "v2"))
+        # 3. permuted setter order
+        g2 = make_manager_permuted(cfg, c.get("order_seed", 7))
+        g2.find_design()
+        variants["permuted_setters"] = result_key(g2, os.path.join(tmp, "v3"))
+        # 4. another nominal borehole height
+        g3 = make_manager(dict(cfg, _nominal_height=c.get("nominal", 77.7)))
+        g3.find_design()
+        variants["other_nominal_height"] = result_key(g3, os.path.join(tmp, "v4"))
+        # 5. another design earlier in the same process
+        if other:
+            go = make_manager(other)
+            try:
+                go.find_design()
+            except ValueError:
+                pass
+            g4 = make_manager(cfg)
+            g4.find_design()
+            variants["after_other_design"] = result_key(g4, os.path.join(tmp, "v5"))
+        # 6. set_design called twice, find_design after re-setting the design
+        g5 = make_manager(cfg)
+        g5.set_design(flow_rate=cfg["design"]["flow_rate"], flow_type_str=cfg["design"]["flow_type"])
+        g5.find_design()
+        variants["set_design_twice"] = result_key(g5, os.path.join(tmp, "v6"))
+        diffs = {}
+        for name, v in variants.items():
+            d = [k for k in ("nbh", "H", "coords", "hp_eft", "tracker") if v[k] != base[k]]
+            d += [fn for fn in base["files"] if v["files"][fn] != base["files"][fn]]
+            diffs[name] = d
+            if d:
+                out.setdefault("detail", {})[name] = {"nbh": v["nbh"], "H": v["H"]}
+        out["diffs"] = diffs
+        out["ok"] = True
+    except Exception as ex:
+        import traceback
+        out = {"ok": False, "exc": type(ex).__name__, "msg": traceback.format_exc()[-500:]}
+    finally:
+        shutil.rmtree(tmp, ignore_errors=True)
+    return out
+
+
 if __name__ == "__main__":
     p = read_payload()
+    if p.get("mode") == "history":
+        emit([run_history(c) for c in p["cases"]])
+        sys.exit(0)
     outs = []
     for i, cfg in enumerate(p["configs"]):
         od = None
